@@ -8,6 +8,9 @@ generated text changes and the corresponding theorem is re-checked against it; a
 value somewhere makes the theorem false, hence the proof fails: a broken obligation of every property whose model
 uses the function. The proofs are `unfold` + case analysis (`grind`, `omega`), not `rfl` on syntax, so that
 re-arrangements of the C++ that the translator understands and that do not change the value keep passing.
+(Round 4b: the whole-kernel ties `Find2d`, `Find2dAcc`, `UnionFind` first restate the generated loop nest with the loop
+combinators of `Loops.lean` — a definitional bridge, `rfl` — and argue semantically from there; `Spline`, `CurRank`,
+`FastPositions`, `DtIntersect` are `unfold` + `grind`/`ring` as before.)
 
 One file per function under `Proofs/CScalarTies/` (so that a broken tie breaks only the properties whose model uses that
 function, see `harness/foundation/cscalar.py`); this file imports them all.
@@ -24,4 +27,11 @@ import Mahotas.Proofs.CScalarTies.PosToFlat
 import Mahotas.Proofs.CScalarTies.FlatToPos
 import Mahotas.Proofs.CScalarTies.Surf
 import Mahotas.Proofs.CScalarTies.Lbp
-
+import Mahotas.Proofs.CScalarTies.Find2d
+import Mahotas.Proofs.CScalarTies.Find2dAcc
+import Mahotas.Proofs.CScalarTies.Spline
+import Mahotas.Proofs.CScalarTies.CurRank
+import Mahotas.Proofs.CScalarTies.DtIntersect
+import Mahotas.Proofs.CScalarTies.FastPositions
+import Mahotas.Proofs.CScalarTies.UnionFind
+import Mahotas.Proofs.CScalarTies.FastRow
